@@ -26,14 +26,15 @@ BUDGET = {"quick": (2400, 4), "thorough": (64000, 16)}
 _PY = {"int": int, "float": float, "complex": complex, "bool": bool, "str": str}
 
 
-def _cfg(tier):
+def _cfg(tier, tdm=False):
     return S.Cfg(max_items=10 if tier != "quick" else 7, depth=2, params=True, sym_scalars=False, loops=False, options=False,
-                 stmt_weight=1, ascii_only=False)
+                 stmt_weight=1, ascii_only=False, tdm=tdm)
 
 
 @st.composite
 def case(draw, tier):
-    script = draw(S.script(_cfg(tier)))
+    # one script in six is a tdm program: its p<digits> arrays are passed by name but indexed like any other array
+    script = draw(S.script(_cfg(tier, tdm=draw(st.integers(0, 5)) == 0)))
     arrays = [i for i, it in enumerate(script.items) if isinstance(it, A.ArrayDecl)]
     variant = None
     if arrays and draw(st.integers(0, 3)) == 0:
